@@ -89,6 +89,8 @@ struct One {
     n: i64,
     fired: bool,
     call: String,
+    on_error: usize,
+    reached_callback: bool,
 }
 
 fn run_one(s: &Scenario, root: &Path, side: &Path, mode: &str) -> Result<One, String> {
@@ -108,6 +110,8 @@ fn run_one(s: &Scenario, root: &Path, side: &Path, mode: &str) -> Result<One, St
         n,
         fired,
         call,
+        on_error: x.result.count("on_error"),
+        reached_callback: x.result.count("detect") + x.result.count("build") > 0,
     })
 }
 
@@ -122,12 +126,16 @@ struct WorkerOut {
     violations: Vec<PhaseFaultReplay>,
 }
 
+/// `c05_mode`: judge the error protocol instead of the outputs: whatever single call fails, the
+/// phase never exits 100 (its detect passes), the error handler runs at most once, and once
+/// detect/build code has been reached an error exit means the handler ran exactly once.
 fn enumerate(
     s: &Scenario,
     root: &Path,
     side: &Path,
     out: &mut WorkerOut,
     only: Option<(i64, i32)>,
+    c05_mode: bool,
 ) -> Result<Option<(i64, i32, String, Vec<String>)>, String> {
     let ok = run_one(s, root, side, "mode=count")?;
     out.executions += 1;
@@ -153,6 +161,31 @@ fn enumerate(
                 if s.build_phase { "build" } else { "detect" },
                 f.call
             ));
+            if c05_mode {
+                let mut detail = Vec::new();
+                let phase = if s.build_phase { "build" } else { "detect" };
+                if f.status == 100 {
+                    detail.push(format!("{phase} exited 100 (\"detection failed\") because its file-system call #{k} of {} ({}) failed with {name}", ok.n, f.call));
+                }
+                if f.on_error > 1 {
+                    detail.push(format!("the error handler ran {} times after file-system call #{k} of {} ({}) failed with {name}", f.on_error, ok.n, f.call));
+                }
+                if f.status != 0 && f.reached_callback && f.on_error != 1 {
+                    detail.push(format!("{phase} code ran and the phase exited {} after file-system call #{k} of {} ({}) failed with {name}, but the error handler ran {} times (expected once)", f.status, ok.n, f.call, f.on_error));
+                }
+                if f.status == 0 && f.on_error != 0 {
+                    detail.push(format!("{phase} exited 0 although the error handler ran (file-system call #{k} of {} ({}) failed with {name})", ok.n, f.call));
+                }
+                if f.status != 0 {
+                    out.outcome_err += 1;
+                } else {
+                    out.outcome_ok_same += 1;
+                }
+                if !detail.is_empty() {
+                    return Ok(Some((k, errno, f.call, detail)));
+                }
+                continue;
+            }
             if f.status != 0 {
                 out.outcome_err += 1;
             } else if f.tree == ok.tree {
@@ -181,7 +214,7 @@ pub fn worker(args: &[String]) -> i32 {
     if let Some(file) = arg_after(args, "--replay") {
         let text = std::fs::read_to_string(&file).unwrap_or_else(|e| common::harness_fail(&e.to_string()));
         let rep: PhaseFaultReplay = serde_json::from_str(&text).unwrap_or_else(|e| common::harness_fail(&e.to_string()));
-        let r = enumerate(&rep.scenario, &root, &side, &mut out, Some((rep.k, rep.errno)));
+        let r = enumerate(&rep.scenario, &root, &side, &mut out, Some((rep.k, rep.errno)), rep.property == "C05");
         let reproduced = matches!(&r, Ok(Some((k, e, c, _))) if *k == rep.k && *e == rep.errno && *c == rep.faulted_call);
         println!("RESULT {}", json!({"reproduced": reproduced, "detail": r.ok().flatten().map(|x| x.3)}));
         let _ = snap::wipe(&scratch);
@@ -190,11 +223,12 @@ pub fn worker(args: &[String]) -> i32 {
     }
     let from: u64 = arg_after(args, "--from").and_then(|s| s.parse().ok()).unwrap_or(0);
     let to: u64 = arg_after(args, "--to").and_then(|s| s.parse().ok()).unwrap_or(0);
+    let c05_mode = args.iter().any(|a| a == "--c05");
     for i in from..to {
-        let seed = run_seed(crate::global_seed(), "e2-c12", i);
+        let seed = run_seed(crate::global_seed(), if c05_mode { "e2-c05-faults" } else { "e2-c12" }, i);
         let s = gen_scenario(seed);
         let before = out.executions;
-        match enumerate(&s, &root, &side, &mut out, None) {
+        match enumerate(&s, &root, &side, &mut out, None, c05_mode) {
             Err(e) => out.sum.harness_errors.push(format!("phase scenario {i}: {e}")),
             Ok(v) => {
                 out.sum.runs += 1;
@@ -208,13 +242,13 @@ pub fn worker(args: &[String]) -> i32 {
                 if let Some((k, errno, call, detail)) = v {
                     out.violations.push(PhaseFaultReplay {
                         engine: "e2-c12".into(),
-                        property: "C12".into(),
+                        property: if c05_mode { "C05".into() } else { "C12".into() },
                         seed,
                         index: i,
                         scenario: s,
                         k,
                         errno,
-                        signature: format!("I-fault:phase:{call}"),
+                        signature: if c05_mode { format!("C05:error-protocol-under-fault:{call}") } else { format!("I-fault:phase:{call}") },
                         faulted_call: call,
                         detail,
                     });
@@ -229,16 +263,22 @@ pub fn worker(args: &[String]) -> i32 {
 }
 
 pub fn run_phase_faults(tier: &str) -> PhaseFaults {
+    run_phase_faults_for(tier, "C12")
+}
+
+/// `property` "C12": outputs under faults; "C05": the error protocol under faults.
+pub fn run_phase_faults_for(tier: &str, property: &str) -> PhaseFaults {
     let scenarios: u64 = std::env::var("VERIF_PHASE_RUNS")
         .ok()
         .and_then(|s| s.parse().ok())
-        .unwrap_or(if tier == "thorough" { 1_600 } else { 48 });
+        .unwrap_or(if tier == "thorough" { if property == "C05" { 800 } else { 1_600 } } else { 48 });
     let mut argvs = Vec::new();
     for (i, (from, to)) in pool::ranges(scenarios, pool::workers()).into_iter().enumerate() {
         argvs.push(
-            ["worker", "e2-c12", "--from", &from.to_string(), "--to", &to.to_string(), "--id", &i.to_string()]
+            ["worker", "e2-c12", "--from", &from.to_string(), "--to", &to.to_string(), "--id", &format!("{property}-{i}")]
                 .iter()
                 .map(|s| (*s).to_string())
+                .chain((property == "C05").then(|| "--c05".to_string()))
                 .collect(),
         );
     }
@@ -270,14 +310,14 @@ pub fn run_phase_faults(tier: &str) -> PhaseFaults {
                 continue;
             }
             seen.push(v.signature.clone());
-            if let Some(f) = known.matches("C12", &v.signature) {
-                pf.lines.push(format!("KNOWN-FINDING: property=C12 {}", f.description));
+            if let Some(f) = known.matches(property, &v.signature) {
+                pf.lines.push(format!("KNOWN-FINDING: property={property} {}", f.description));
                 continue;
             }
             let dir = pool::out_root().join("replays");
             let _ = std::fs::create_dir_all(&dir);
             let text = serde_json::to_string_pretty(&v).unwrap_or_default();
-            let path = dir.join(format!("C12-{:08x}.json", crate::rng::hash_str(&text) & 0xffff_ffff));
+            let path = dir.join(format!("{property}-{:08x}.json", crate::rng::hash_str(&text) & 0xffff_ffff));
             if let Err(e) = std::fs::write(&path, text + "\n") {
                 common::harness_fail(&format!("cannot write replay: {e}"));
             }
@@ -285,7 +325,7 @@ pub fn run_phase_faults(tier: &str) -> PhaseFaults {
             for d in &v.detail {
                 pf.lines.push(format!("    {d}"));
             }
-            pf.lines.push(format!("VIOLATION property=C12 replay={}", path.display()));
+            pf.lines.push(format!("VIOLATION property={property} replay={}", path.display()));
             pf.violations += 1;
         }
     }
